@@ -336,6 +336,8 @@ def _eval_const(expr: str, env: dict):
                 raise ValueError("constant too large")
             if opcls is ast.LShift and b > 4096:
                 raise ValueError("constant too large")
+            if opcls in (ast.Mult, ast.LShift) and a.bit_length() + (b.bit_length() if opcls is ast.Mult else max(b, 0)) > 16384:
+                raise ValueError("constant too large")
         return ops[opcls](a, b)
 
     def _has_non_finite(value) -> bool:
